@@ -7,8 +7,10 @@
 (*  T07c  list membership enumerates exactly the elements                  *)
 (*  T07d  <, <=, >, >= form one total order on numbers                     *)
 (*  T07e  reducers do not depend on the order of the rows                  *)
+(*  T07r  the same arithmetic laws at the int64 boundaries (Ring64.tla):   *)
+(*        division law, additive inverse, distributivity, total order      *)
 (***************************************************************************)
-EXTENDS Semantics, Json
+EXTENDS Semantics, Json, Ring64
 CONSTANT Mode
 VARIABLE c
 Ints == (-3..3) \cup {7, -7, 100}
@@ -18,7 +20,7 @@ Lists == {List(<<>>), List(<<Num(1)>>), List(<<Num(1), Num(2)>>), List(<<Num(2),
 Keys == {Num(1), Str("a"), Nm("/k")}
 Arith == {[f |-> f, a |-> <<x, y>>] : f \in {"fn:plus", "fn:minus", "fn:mult", "fn:div", "fn:mod"}, x \in Nums, y \in Nums}
          \cup {[f |-> f, a |-> <<x, y, z>>] : f \in {"fn:plus", "fn:minus", "fn:mult", "fn:div"}, x \in {Num(7), Num(-7), Num(100)}, y \in {Num(2), Num(-3), Num(0)}, z \in {Num(2), Num(0), Num(-1)}}
-         \cup {[f |-> "fn:minus", a |-> <<x>>] : x \in Nums}
+         \cup {[f |-> f, a |-> <<x>>] : f \in {"fn:minus", "fn:div", "fn:plus", "fn:mult"}, x \in Nums}
 Struct == {[f |-> "fn:pair", a |-> <<x, y>>] : x \in Vals, y \in Vals}
           \cup {[f |-> "fn:list", a |-> q] : q \in {<<>>} \cup {<<x>> : x \in Vals} \cup {<<x, y>> : x \in Vals, y \in {Num(1), Str("a")}}}
           \cup {[f |-> "fn:tuple", a |-> <<x, y, z>>] : x \in {Num(1), Str("a")}, y \in {Num(2)}, z \in Vals}
@@ -36,7 +38,17 @@ Cmp == {[f |-> op, a |-> <<x, y>>] : op \in {"lt", "le", "gt", "ge"}, x \in Nums
 \* reducer vectors: a bag of rows (values of the reduced variable) in two different orders
 Bags == {<<Num(1)>>, <<Num(1), Num(2), Num(3)>>, <<Num(3), Num(1), Num(2)>>, <<Num(2), Num(2), Num(-7)>>, <<Num(-7), Num(2), Num(2)>>, <<Num(100), Num(7), Num(0), Num(-3)>>, <<Num(-3), Num(0), Num(7), Num(100)>>}
 Red == {[f |-> r, a |-> b] : r \in {"fn:count", "fn:sum", "fn:min", "fn:max", "fn:avg", "fn:collect_distinct"}, b \in Bags}
-Cases == CASE Mode = "arith" -> Arith [] Mode = "struct" -> Struct [] Mode = "cmp" -> Cmp [] Mode = "red" -> Red
+\* int64 boundary vectors: small numbers, MaxInt64 - d and MinInt64 + d as symbolic ring values <<"w", a, b>>
+WVals == {Small(n) : n \in {-3, -2, -1, 0, 1, 2, 3}} \cup {Max64(d) : d \in 0..2} \cup {Min64(d) : d \in 0..2}
+WArg(w) == <<"w", w[1], w[2]>>
+RingVec == {[f |-> f, a |-> <<WArg(x), WArg(y)>>, ring |-> TRUE] :
+               f \in {"fn:plus", "fn:minus", "fn:mult", "fn:div", "fn:mod", "lt", "le", "gt", "ge"}, x \in WVals, y \in WVals}
+           \cup {[f |-> "fn:minus", a |-> <<WArg(x)>>, ring |-> TRUE] : x \in WVals}
+           \cup {[f |-> f, a |-> <<WArg(x), WArg(y), WArg(z)>>, ring |-> TRUE] :
+                    f \in {"fn:plus", "fn:mult", "fn:minus"}, x \in {Max64(0), Min64(0), Min64(1), Small(2)}, y \in {Max64(1), Min64(0), Small(-1), Small(3)}, z \in {Max64(0), Small(1), Small(-2)}}
+           \cup {[f |-> r, a |-> <<WArg(x), WArg(y), WArg(z)>>, ring |-> TRUE] :
+                    r \in {"fn:sum", "fn:min", "fn:max"}, x \in {Max64(0), Min64(1), Small(2)}, y \in {Max64(1), Min64(0), Small(-1)}, z \in {Max64(0), Min64(0), Small(1)}}
+Cases == CASE Mode = "arith" -> Arith [] Mode = "struct" -> Struct [] Mode = "cmp" -> Cmp [] Mode = "red" -> Red [] Mode = "ring" -> RingVec
 Init == c = <<>>
 Next == c = <<>> /\ c' \in Cases
 Emit == c # <<>> => PrintT(<<"CASE", ToJson(c)>>)
@@ -66,5 +78,11 @@ T07e == \A r \in {"fn:count", "fn:sum", "fn:min", "fn:max", "fn:avg", "fn:collec
           \A b1 \in Bags, b2 \in Bags :
              (Len(b1) = Len(b2) /\ \A v \in Ran(b1) \cup Ran(b2) : Cardinality({i \in DOMAIN b1 : b1[i] = v}) = Cardinality({i \in DOMAIN b2 : b2[i] = v}))
                => Reduce(r, b1) = Reduce(r, b2)
-T07 == c = <<>> => (T07a /\ T07b /\ T07c /\ T07d /\ T07e)
+T07r == /\ \A x \in WVals, y \in WVals : DivModLaw(x, y) /\ Add(x, Neg(x)) = Small(0) /\ Sub(Add(x, y), y) = x
+        /\ \A x \in WVals, y \in WVals, z \in WVals : Mul(x, Add(y, z)) = Add(Mul(x, y), Mul(x, z))
+        /\ \A x \in WVals, y \in WVals : (Less(x, y) \/ Less(y, x) \/ x = y) /\ ~(Less(x, y) /\ Less(y, x))
+        /\ \A x \in WVals, y \in WVals, z \in WVals : (Less(x, y) /\ Less(y, z)) => Less(x, z)
+        \* remainder: smaller in magnitude than the divisor is implied for the small zone by T07a; its sign follows the dividend
+        /\ \A x \in WVals, y \in WVals : (Mod(x, y) # Undef /\ ~IsZero(Mod(x, y))) => (IsNeg(Mod(x, y)) = IsNeg(x))
+T07 == c = <<>> => (IF Mode = "ring" THEN T07r ELSE (T07a /\ T07b /\ T07c /\ T07d /\ T07e))
 =============================================================================
